@@ -123,6 +123,11 @@ func (o ChainOracle) AfterStep(m *VM, rec *Rec) {
 		}
 	}
 	if key == nil || len(key) != 32 {
+		if accepted && op.KS.Raw == "" {
+			// whatever the bytes are: with no key to verify them under, nothing can have been verified
+			m.Violate(o.Prop, "forgery-accepted", "token accepted although the verifier holds no key that applies to it",
+				fmt.Sprintf("op %d: no key is registered for the token's root key id (%s) and there is no usable default, yet the token was accepted\nmutations: %v\nbytes: %x", rec.I, idStr(idp), m.mutsOf(t), clipB(data)))
+		}
 		return // key selection is C16's subject
 	}
 	refValid := derr == nil && ref.VerifyChain(env, key) == nil
